@@ -230,6 +230,25 @@ def bcast_patterns(R, C):
     return out
 
 
+SPECIALS = ['-0.0', '0', 'nan', 'inf', '-inf', '1e-40', '-1e-40', '3', '-3', '6', '0.5', '-0.5', '1', '-1']
+
+
+def gen_unary_special(ctx, tier, rng):
+    """-0.0, NaN, infinities, denormals and the activation thresholds, in packed and in tail positions"""
+    for dt in DTYPES:
+        L = lanes_of(ctx, dt)
+        n = 2 * L + 3
+        for op in UNARY_ALL_OPS:
+            if ctx in NO_MASKOPS and op in ('hardshrink', 'softshrink', 'hardswish'):
+                continue
+            data = [SPECIALS[(k * 5 + 2) % len(SPECIALS)] for k in range(n)]
+            if op == 'sqrt':
+                data = [d.lstrip('-') if d not in ('-0.0',) else d for d in data]
+            req = 'unary dtype=%s op=%s lanes=%d shape=%d layout=row fmt=hex show=0 data=%s' % (dt, op, L, n, ','.join(data))
+            yield Case(req, hname(ctx), dom=False, oracle='ok shape=%d agree' % n, model=False,
+                       tags=['unary', 'ctx=' + ctx, dt, 'special-values', 'op=' + op])
+
+
 def gen_binary(ctx, tier, rng):
     for dt in DTYPES:
         L = lanes_of(ctx, dt)
@@ -450,7 +469,7 @@ def gen(tier, rng):
     yield from gen_enum(tier, rng)
     for ctx in CTXS:
         san = ctx in SAN_CTXS[tier]
-        for g in (gen_unary, gen_binary, gen_outer, gen_reduce, gen_matmul):
+        for g in (gen_unary, gen_unary_special, gen_binary, gen_outer, gen_reduce, gen_matmul):
             for c in g(ctx, tier, rng):
                 unsafe = memory_unsafe(c)
                 if not unsafe:
@@ -525,7 +544,17 @@ def pred_reduce_negaxis(case):
     return kind == 'reduce' and a['axis'] != 'None' and int(a['axis']) < -1
 
 
+def pred_special_minmax(case):
+    """min/max/compare-built activations (relu6, hardtanh, softshrink) on NaN or -0.0 input"""
+    kind, a = _args(case)
+    if kind != 'unary' or a['op'] not in ('relu6', 'hardtanh', 'softshrink'):
+        return False
+    d = a['data'].split(',')
+    return 'nan' in d or '-0.0' in d
+
+
 KNOWN_PREDICATES = {
+    'special_values_minmax': pred_special_minmax,
     'colmajor_operand': pred_colmajor,
     'bcast2d_1x1_operand': pred_bcast_1x1,
     'reduce_out1_nonadd': pred_reduce_out1_nonadd,
